@@ -30,6 +30,15 @@ IMPORTS = {
     "C10": [
         ("C06", ["C06.W3"], "the numeric default that is range-checked is the one the schema states (annotations are not rewritten before conversion)"),
     ],
+    "C14": [
+        ("C16", ["C16.W2"], "replacement and merging read the definitions index: it is only ever added to (a replaced definition's schema must stay available for structural merging)"),
+    ],
+    "C18": [
+        ("C17", ["C17.W2"], "builder fields and setters name property types relative to `super`: the module prefix reaches every nested type"),
+    ],
+    "C19": [
+        ("C14", ["C14.T1"], "the base derives (Serialize, Deserialize, Debug, Clone) survive the assembly of the derive list whatever extra derives the user adds"),
+    ],
     "C16": [
         ("C02", ["C02.W4"], "an id handed out for a schema resolves to that schema's structure: a name hit is not answered with another schema's type"),
     ],
